@@ -22,6 +22,7 @@ import Distill.Model.TextRender
 import Distill.Model.MediaRender
 import Distill.Model.Root
 import Distill.Model.Terms
+import Distill.Model.IEReader
 namespace Distill.Slices
 open Distill Distill.Proto
 
@@ -522,6 +523,18 @@ def linknumSlice : P String := do
   | some n => if 0 ≤ n && n ≤ 100 then pure s!"{n}" else pure "-"
   | none => pure "-"
 
+/-- `iereader tree atoms nTbl (value lower upper)*` → the answers of the IE Reading View accessor -/
+def iereaderSlice : P String := do
+  let t ← node
+  let A ← atomsP
+  let m ← nat
+  let tbl ← many m (do let v ← str; let a ← str; let b ← str; pure (v, a, b))
+  let lower : String → String := fun v => match tbl.find? (fun e => e.1 == v) with | some e => e.2.1 | none => v
+  let upper : String → String := fun v => match tbl.find? (fun e => e.1 == v) with | some e => e.2.2 | none => v
+  let s := IE.source { lower := lower, upper := upper, vis := A } t
+  let art := match s.article with | some a => artStr a | none => "nil"
+  pure s!"{hex s.title} {hex s.publisher} {hex s.copyright} {hex s.author} {bstr s.optOut} {art} {s.images.map imgStr}"
+
 def outElP : P OutEl := do
   let c ← bool; let h ← str; let t ← str
   pure { content := c, html := h.toList, text := t.toList }
@@ -541,6 +554,7 @@ def dispatch (slice : String) : Option (P String) :=
   | "mediarender" => some mediarenderSlice
   | "rootselect" => some rootselectSlice
   | "terms" => some termsSlice
+  | "iereader" => some iereaderSlice
   | "linknum" => some linknumSlice
   | "docfilters" => some docfilters
   | "tableclass" => some tableclass
